@@ -69,6 +69,10 @@ pub struct Probes {
     /// order in which items started
     pub start_order: Vec<usize>,
     pub on_err: Vec<String>,
+    /// error handlers (async callbacks) that have begun / finished; the highest number in progress when a close callback ran
+    pub err_handlers_begun: u32,
+    pub err_handlers_done: u32,
+    pub err_handlers_pending_at_close: u32,
     /// (virtual instant, tag) of callbacks
     pub callbacks: Vec<(u64, String)>,
 }
